@@ -113,6 +113,7 @@ class Assembly:
         self.macros = {}
         self.hits_total = {}
         self.includes = []
+        self.negctl_skipped = []
 
     def emit(self, line, origin):
         self.out.append((line, origin))
@@ -435,7 +436,10 @@ def _do_cut(asm, toks, block, tmpl_line):
         mm_ = mask(mt)
         idx = code_find(mt, mm_, frm, bo if kind == 'fn' else 0)
         if idx < 0:
-            raise CutError('anchor lost: //@mutate %r not found in %s (template line %d)' % (frm, fname, no))
+            # the working tree no longer has the text this control edits: skip the control (noted in the
+            # evidence) rather than leave the unit undecided
+            asm.negctl_skipped.append({'of': fname, 'from': frm, 'to': to, 'why': 'text to edit not present in the cut'})
+            continue
         mt = mt[:idx] + to + mt[idx + len(frm):]
         nm = '%s__negctl%d' % (fname, k)
         if kind == 'fn':
